@@ -11,17 +11,100 @@ LEVEL_NOTE_COMMON = ("Trusted: Coq 8.16.1 kernel (+ its VM for vm_compute reflec
                      "the corpus generators / Rust renderer / observers, cargo + rustc 1.95. ")
 
 # property -> (text, note, technique, design_ref)
+TIE = ("The model is tied to /repo on every run by a differential correspondence: generated enum definitions are compiled with the REAL "
+       "derives from /repo's working tree, run, and every observable the property constrains is compared with the extracted model. ")
+TECH = "Rocq proof over a Gallina model of the generator + differential correspondence (extracted model vs compiled derive)"
+
 CLAIMED = {
+    "C01": ("C01_sound_complete / C01_fallthrough / C01_match_is_variant / C01_disabled_never / C01_first_match / C01_try_from_agrees: for EVERY enum "
+            "definition on which the EnumString generator model succeeds and whose spellings do not overlap (decidable predicate), and EVERY input "
+            "string, from_str returns variant V with Default / default_with payload iff the input is one of V's spellings (exactly, or ignoring ASCII "
+            "case when V is case-insensitive); otherwise the default capture or the error; never a disabled variant; try_from agrees. " + TIE,
+            "Modelled, not verified: Rust's match on &str with guards, phf lookup.", TECH, "DESIGN.md §7 C01"),
+    "C02": ("C02_roundtrip_* / C02_serializations / C02_preferred_in_spellings: for every definition (no prefix, non-overlapping) and every enabled "
+            "non-default non-transparent variant with a placeholder-free name, what Display / AsRefStr / IntoStaticStr / ToString print parses back to "
+            "the same variant with reset payload, and so does every get_serializations() entry; corollaries of C01 and C03 inside the model. " + TIE,
+            "As C01 / C03.", TECH, "DESIGN.md §7 C02"),
+    "C03": ("C03_canonical / C03_longest_unique / C03_display / C03_as_ref / C03_into_static / C03_to_string / C03_variant_names: the name every "
+            "string-producing derive prints is preferred_name, which is the property's canonical name (to_string, else the unique longest serialize, "
+            "else the cased identifier, prefix prepended), for every definition and variant; VARIANTS holds it at the declaration index. " + TIE,
+            "Serialize literals of one variant are assumed to have pairwise distinct byte lengths.", TECH, "DESIGN.md §7 C03"),
+    "C04": ("C04_table / C04_collect / C04_rev / C04_iter_collect / C04_count: the iterator's constructor table is exactly the enabled variants in "
+            "declaration order (no duplicates, all payload fields Default), draining the generated state machine from the front yields 0..COUNT-1 "
+            "and from the back the reverse, COUNT = table length — for every definition. " + TIE,
+            "As C05 for the arithmetic.", TECH, "DESIGN.md §7 C04"),
+    "C05": ("C05_step / C05_history / C05_no_panic / C05_fused / C05_len_exact (+ C05_legacy_refuted for the pinned arithmetic): for every variant count "
+            "with COUNT+1 < 2^64, both overflow modes, every n < 2^64 and EVERY history of next / next_back / nth / nth_back / len / size_hint / clone, "
+            "the generated cursor arithmetic refines the double-ended iterator over 0..COUNT-1 and never panics. Tied by state-cover + exhaustive short "
+            "+ random histories in dev AND release builds under catch_unwind. Send + Sync is a compile-time assertion (compile check, not proof).",
+            "Modelled: usize arithmetic (checked / wrapping / saturating), std's default nth_back / skip / step_by / cycle.", TECH, "DESIGN.md §7 C05"),
     "C06": ("Theorems C06_iff / C06_none / C06_roundtrip / C06_const / C06_total (Props/C06.v) hold for EVERY enum definition on which "
             "the FromRepr generator model succeeds and every integer x: from_repr(x) = Some(V, defaults) iff V is enabled and x is the "
-            "discriminant rustc assigns to V (rule over all declared variants). The model is tied to the real derive on every run: "
-            "~1000 generated enums are compiled with the real #[derive(FromRepr)] from /repo's working tree and compared with the "
-            "extracted model on every value of 8/16-bit discriminant types and on boundary/random values of wider ones.",
+            "discriminant rustc assigns to V (rule over all declared variants). " + TIE +
+            "~1000 generated enums are compared on every value of 8/16-bit discriminant types and on boundary/random values of wider ones.",
             "Modelled, not verified: rustc's discriminant assignment (rustc_discr, tied by `as` casts), const-evaluability (tied by a "
-            "const item), generics/trait dispatch (decided by rustc on the corpus).",
-            "Rocq proof over a Gallina model of the generator + differential correspondence (extracted model vs compiled derive)",
-            "DESIGN.md §7 C06"),
+            "const item), generics/trait dispatch (decided by rustc on the corpus).", TECH, "DESIGN.md §7 C06"),
+    "C07": ("C07_words_spec / C07_style / C07_camel_is_mixed / C07_table / C07_lower_upper / C07_uniform / C07_explicit_not_recased: heck's word "
+            "scanner equals a position-local boundary specification (underscores, lower->upper, acronym boundaries) for EVERY ASCII identifier; each "
+            "style is the documented separator + capitalisation over those words; the 16 accepted strings map to the documented styles; explicit "
+            "spellings are never re-cased. Tied through genprobe (the real convert_case / snakify / from_str) exhaustively over all identifiers up to "
+            "length 6 (thorough 8) over {a,b,A,B,1,_} by digest, plus a dictionary and derive-level enums under all 16 style strings.",
+            "ASCII identifiers only; heck 0.5.0 is modelled (Model/Heck.v), tied by the exhaustive sweep.", TECH, "DESIGN.md §7 C07"),
+    "C08": ("C08_count_iter / C08_names_length / C08_array / C08_no_disabled_positions: COUNT = number of iterated values; VariantNames and "
+            "VariantArray have one entry per declared variant in declaration order; with no disabled variant all four lists have the same length and "
+            "position i denotes the same variant — for every definition. " + TIE, "As C03 / C04.", TECH, "DESIGN.md §7 C08"),
+    "C09": ("C09_mirror / C09_from_agree / C09_name_vis: the generated discriminant item has the same variant names, order, explicit discriminants and "
+            "repr (hence the same rustc numbering), From<E> / From<&E> / discriminant() map variant i to variant i, name / visibility / derives follow "
+            "the attributes — for every definition. Requested derives are exercised on the generated type and compared with the model applied to the "
+            "generated item. " + TIE, "`Derives take effect` and visibility are decided by compiling and using the generated type.", TECH, "DESIGN.md §7 C09"),
+    "C10": ("C10_slots / C10_get_set_same / C10_get_set_other / C10_history / C10_constructors / C10_transform / C10_all / C10_all_ok / "
+            "C10_disabled_panics: one slot per enabled variant; after ANY history of writes, reading k gives the last value written to k else the "
+            "constructed one; constructors / transform pointwise; all / all_ok; disabled keys panic — for every definition and element type. " + TIE,
+            "Struct-literal field evaluation order and `?` are modelled.", TECH, "DESIGN.md §7 C10"),
+    "C11": ("C11_capture / C11_display_default / C11_transparent_display / C11_transparent_as_ref / C11_transparent_into_static: an input that matches "
+            "no other variant is captured unchanged in the default variant; Display of a default variant without to_string and Display / AsRef / From "
+            "of a transparent variant forward to the inner field with the caller's formatter — for every definition, input and format spec. " + TIE,
+            "The inner type's Display / AsRef / From<&str> are the harness types'.", TECH, "DESIGN.md §7 C11"),
+    "C12": ("C12_fold_ascii_only (256x256 reflection) / C12_str_fold / C12_non_ascii_exact / C12_flag / C12_insensitive_iff / C12_sensitive_exact / "
+            "C12_unicode_examples: eq_ignore_ascii_case is equality up to bit 0x20 on ASCII letters only; the effective flag is the variant's value else "
+            "the enum's; insensitive variants match iff equal after ASCII folding, others exactly. " + TIE, "Strings are UTF-8 byte lists.", TECH, "DESIGN.md §7 C12"),
+    "C13": ("C13_methods / C13_partition / C13_disabled / C13_try_as: exactly one is_* predicate (named is_<snakify ident>) is true for a value of an "
+            "enabled variant and none for a disabled one; try_as_* / _ref / _mut return Some(all fields in order) exactly on their own tuple variant. "
+            + TIE + "Method names come from the model and are called (a naming difference is a compile error); _mut writes are re-read.",
+            "Method names are assumed pairwise distinct.", TECH, "DESIGN.md §7 C13"),
+    "C14": ("C14_message / C14_detailed / C14_documentation / C14_serializations / C14_doc_text: the four getters return exactly the variant's "
+            "message, detailed_message (falling back to message), doc text (one leading space stripped per line; one line as is, several newline-"
+            "terminated) and spellings; None for disabled variants — for every definition. " + TIE, "Zero-variant enums excluded (no value exists).", TECH, "DESIGN.md §7 C14"),
+    "C15": ("C15_get / C15_get_str_iff / C15_merge_groups: get_str / get_int / get_bool return the first declared value of that type for the key among "
+            "all props(..) groups of the variant, None otherwise and for disabled variants — for every definition and key. " + TIE,
+            "Property values are string / integer / boolean literals.", TECH, "DESIGN.md §7 C15"),
+    "C16": ("C16_equiv / C16_accepts / C16_keys_distinct: adding use_phf never makes the generator fail, never emits duplicate phf keys, and for "
+            "non-overlapping definitions the phf-backed parser equals the plain one on EVERY input. Every corpus definition is built twice (with / "
+            "without use_phf, strum's phf feature on) and both parsers are compared with their models and with each other.",
+            "phf_map! / phf::Map::get are modelled as an association list with distinct keys.", TECH, "DESIGN.md §7 C16"),
+    "C17": ("C17_fixed / C17_pad_length / C17_pad_identity / C17_capture / C17_named_binding / C17_positional_binding: a fixed name is formatted by "
+            "Formatter::pad (model fmt_pad) whatever the variant's kind; strum's placeholder capture returns exactly the argument names of every "
+            "well-formed format string; named arguments bound = fields used. " + TIE + "The rendering by format_args! itself is a Rust-vs-Rust "
+            "differential against format! with the same literal and fields (differential, not proof).",
+            "core::fmt::Formatter::pad is modelled; format_args! is not.", TECH, "DESIGN.md §7 C17"),
+    "C18": ("C18_custom_err / C18_not_called_on_match / C18_standard / C18_err_type: with parse_err_ty/fn and no default variant every rejected "
+            "input yields Err(f(input)) with the input unchanged and f is not involved when a variant matches; otherwise VariantNotFound. " + TIE +
+            "The harness's parse_err_fn logs its calls: exactly [input] on rejection, empty on success.",
+            "The user's function is observed through its argument and call log.", TECH, "DESIGN.md §7 C18"),
+    "C19": ("C19_shadow_independent / C19_no_std_item / C19_resolves_without_std / C19_strum_through_configured_path: the reference checker refs_ok is "
+            "proved sound against a model of Rust name resolution; on every run it is applied (extracted) to every path / macro / use of the REAL "
+            "generated tokens of every (definition, derive) obtained through genprobe, with the default and a configured strum path; and the same "
+            "definitions are compiled in three configurations: #![no_std] with strum default-features off, strum only reachable renamed + re-exported "
+            "with #[strum(crate=..)], and inside modules declaring mod core / std / alloc.",
+            "rustc's real resolution is modelled only by Model/Paths.v; the three builds are the oracle (translation of real tokens + compile).",
+            "Rocq-proved checker run on references extracted from the real generated tokens + three no_std build configurations", "DESIGN.md §7 C19"),
+    "C20": ("C20_rejects / C20_no_panic / C20_dup_variant_attr_iff: for every item and derive, whenever one of the property's rejection rules applies "
+            "the generator model returns an error, and no generator ever panics. Tied through genprobe: ~300 malformed and control items x 17 derive "
+            "entry points of the REAL generator under catch_unwind must give the model's outcome class; a sample (thorough: all) is compiled with the "
+            "real proc macro and must produce an error-level rustc diagnostic inside the item, never a panic.",
+            "Diagnostics level / span are observed from rustc's JSON output, not modelled.", TECH, "DESIGN.md §7 C20"),
 }
+READY = ["C06", "C19"]
 
 REASON_PENDING = "check under construction (framework being built); will be claimed once its theorem and correspondence run"
 
@@ -30,7 +113,7 @@ def main():
     props = [json.loads(l)["id"] for l in open(os.path.join(VERIF, "properties.jsonl"))]
     checks = []
     for pid in props:
-        if pid not in CLAIMED:
+        if pid not in READY:
             continue
         text, note, tech, ref = CLAIMED[pid]
         checks.append({
@@ -60,7 +143,7 @@ def main():
             "kind_free_text": "Rocq (Coq 8.16.1) theorems over a hand-written executable Gallina model of strum_macros; the model is extracted to OCaml and compared on every run with the real derives compiled from /repo's working tree",
         }],
         "checks": checks,
-        "not_applicable": [{"property_id": p, "reason": REASON_PENDING} for p in props if p not in CLAIMED],
+        "not_applicable": [{"property_id": p, "reason": REASON_PENDING} for p in props if p not in READY],
         "notes": "Seven genuine defects of the pinned tree were repaired by `fix:` commits in /repo (see known_findings.json and DESIGN.md §8).",
     }
     with open(os.path.join(VERIF, "MANIFEST.json"), "w") as f:
